@@ -771,6 +771,15 @@ func c17Cases() []c17case {
 			d["security"] = gen.Arr(gen.S{"k": gen.Arr()}, gen.S{"o": gen.Arr("r")})
 			dig(d, "paths")["/open"] = gen.S{"get": gen.S{"operationId": "open", "security": gen.Arr(), "responses": okResp()}}
 		}},
+		// references that point INTO a definition (a JSON pointer may go deeper than the component)
+		{"references-into-definitions", func(d gen.S) {
+			defs := dig(d, "definitions")
+			defs["Order"] = gen.S{"type": "object", "properties": gen.S{"status": gen.S{"type": "string", "enum": gen.Arr("new", "paid"), "maxLength": 4.0}, "lines": gen.S{"type": "array", "items": gen.S{"type": "object", "properties": gen.S{"qty": gen.S{"type": "integer", "minimum": 1.0}}}}}}
+			defs["StatusChange"] = gen.S{"type": "object", "properties": gen.S{"from": gen.S{"$ref": "#/definitions/Order/properties/status"}, "to": gen.S{"$ref": "#/definitions/Order/properties/status"}, "line": gen.S{"$ref": "#/definitions/Order/properties/lines/items"}}}
+			dig(d, "paths")["/orders/{id}/status"] = gen.S{"parameters": gen.Arr(gen.S{"name": "id", "in": "path", "required": true, "type": "string"}),
+				"get": gen.S{"operationId": "getStatus", "responses": gen.S{"200": gen.S{"description": "ok", "schema": gen.S{"$ref": "#/definitions/Order/properties/status"}}}},
+				"put": gen.S{"operationId": "putStatus", "parameters": gen.Arr(gen.S{"name": "body", "in": "body", "required": true, "schema": gen.S{"$ref": "#/definitions/Order/properties/lines/items"}}), "responses": okResp()}}
+		}},
 		{"same-key-shared-query-parameter-and-definition", func(d gen.S) {
 			d["parameters"] = gen.S{"Pet": gen.S{"name": "pet", "in": "query", "type": "string", "maxLength": 8.0}}
 			dig(d, "paths")["/nk"] = gen.S{"get": gen.S{"operationId": "nk", "parameters": gen.Arr(gen.S{"$ref": "#/parameters/Pet"}), "responses": gen.S{"200": gen.S{"description": "ok", "schema": gen.S{"$ref": "#/definitions/Pet"}}}}}
